@@ -42,6 +42,7 @@ func configs() []cfg {
 		{"n=2", []float64{0, 10}, []float64{0, 2e6}, []float64{0, 4e5}},
 		{"n=3-convex", []float64{0, 5, 10}, []float64{0, 1e6, 3e6}, []float64{0, 1e5, 4e5}},
 		{"n=4-concave", []float64{0, 2, 6, 10}, []float64{0, 5e5, 1e6, 3e6}, []float64{0, 3e5, 3.8e5, 4e5}},
+		{"n=4-short-top-segment", []float64{0, 5, 9.5, 10}, []float64{0, 1e6, 2.9e6, 3e6}, []float64{0, 2e5, 3.9e5, 4e5}},
 	}
 	for _, t := range lvas {
 		n := len(t.v)
@@ -161,13 +162,13 @@ func spaces(tier string) []*gridx.Space {
 	if tier == "thorough" {
 		T = 4
 	}
-	letters := [][]float64{{0, 0, 0, 0, 0, 0}, {20, 0, 0, 0, 0, 0}, {0, 8, 0, 0, 0, 0}, {0, 0, 200, 0, 0, 0}, {0, 0, 2, 1, 0, 0}, {0, 8, 2, 50, 0, 0}, {20, 0, 200, 50, 0, 0}, {0, 0, 0, 50, 0, 0}}
+	letters := [][]float64{{0, 0, 0, 0, 0, 0}, {20, 0, 0, 0, 0, 0}, {0, 8, 0, 0, 0, 0}, {0, 0, 200, 0, 0, 0}, {0, 0, 2, 1, 0, 0}, {0, 8, 2, 50, 0, 0}, {20, 0, 200, 50, 0, 0}, {0, 0, 0, 50, 0, 0}, {0, 0, 200, 1, 2e5, 6e5}, {0, 0, 2, 1, 5e5, 1e6}}
 	var out []*gridx.Space
 	for _, cf := range configs() {
 		cf := cf
 		top := cf.vols[len(cf.vols)-1]
 		p := tables.StorageParams(cf.dt, cf.levels, cf.vols, cf.areas, cf.minRel, cf.maxRel)
-		inits := [][]float64{{0, 0, 0}, {top * 0.4, 0, 0}, {top, 0, 0}}
+		inits := [][]float64{{0, 0, 0}, {top * 0.4, 0, 0}, {top * 0.9, 0, 0}, {top, 0, 0}}
 		out = append(out, &gridx.Space{Name: "Storage/" + cf.name, Model: "Storage", Params: [][]float64{p}, PNames: []string{cf.name}, Letters: letters, T: T, Inits: inits, Oracle: oracle(cf)})
 	}
 	return out
@@ -176,7 +177,7 @@ func spaces(tier string) []*gridx.Space {
 func Spec() *vf.Check {
 	return &vf.Check{
 		ID: "C13", Level: "exploration", BlockSize: 64,
-		Rule: "Storage x 3 level-volume-area tables (2, 3 convex, 4 concave points; area 0 at volume 0) x 4 release-curve families (zero, constant max, increasing max, spillway) x dt {86400,3600} x initial volume {empty, 40%, full} x every word of length T over 8 (rain,PET,inflow,demand) letters (filling to spill and drawing down to empty occur); " +
+		Rule: "Storage x 4 level-volume-area tables (2, 3 convex, 4 concave, 4 with a short top segment; area 0 at volume 0) x 4 release-curve families (zero, constant max, increasing max, spillway) x dt {86400,3600} x initial volume {empty, 40%, 90%, full} x every word of length T over 10 (rain,PET,inflow,demand,targetMinimumVolume,targetMinimumCapacity) letters (filling to spill and drawing down to empty occur); " +
 			"per step: balance with the reported rainfall/evaporation volumes, those volumes = depth x area over the areas traversed, V>=0, outflow within the release curves over the volumes traversed, = demand when admissible at both ends, excess only above full supply; final level/area = table values. distinct_nontrivial = words that move water.",
 		Assumptions:   []string{"tables are physically consistent: zero area and zero release at zero volume (a reservoir cannot release or evaporate from nothing)", "within one step the volume moves monotonically (constant forcing) up to the sub-step controller's tolerance, so curve values at the step's end volumes bound the release within 1e-4 relative + 1e-3 m3/s", "lattice values only"},
 		Build:         func(tier string) vf.Enumeration { return gridx.NewEnum("C13", spaces(tier)) },
